@@ -25,8 +25,17 @@ def run(ctx):
             calls = g.shuffle_calls()
             named = [n for n in astx.walk_fn(fn.node) if isinstance(n, ast.Call) and txt(n.func).split(".")[-1] == "shuffle"]
             if not calls:
+                # a hand-written exchange shuffle: `x[i], x[j] = x[j], x[i]` with j drawn from the random module.  Whether its index
+                # ranges are those of Fisher-Yates (uniform) is not decided here - but it is not "no shuffle"
+                swaps = [n for n in astx.walk_fn(fn.node) if isinstance(n, ast.Assign) and len(n.targets) == 1 and isinstance(n.targets[0], ast.Tuple) and isinstance(n.value, ast.Tuple)
+                         and len(n.targets[0].elts) == 2 and all(isinstance(e_, ast.Subscript) for e_ in n.targets[0].elts)
+                         and [txt(e_) for e_ in n.targets[0].elts] == [txt(e_) for e_ in reversed(n.value.elts)]]
+                draws = [n for n in astx.walk_fn(fn.node) if isinstance(n, ast.Call) and (prog.external(fn.module, n.func) or "").startswith("random.")]
                 if named:
                     o1.undecided(f"a call `{txt(named[0].func)}` exists but does not resolve to the standard library's random.shuffle", fn, named[0])
+                    o2.undecided("see C03.1", fn)
+                elif swaps and draws:
+                    o1.undecided(f"the stub lists are permuted by a hand-written exchange loop (`{txt(swaps[0])[:60]}` with `{txt(draws[0])[:40]}`): whether it is uniform is not decided", fn, swaps[0])
                     o2.undecided("see C03.1", fn)
                 else:
                     o1.violated(fn, g.stubs_def, f"no random.shuffle of the stub lists `{g.stubs}`: stubs are grouped in construction order "
